@@ -2,6 +2,7 @@
 trace, validated against spec/Dispatcher.tla: its reply may depend on its own text and the configuration only.
 usage: history.py SCENARIOS.json TRACES.json"""
 import json
+import zlib
 import os
 import sys
 import threading
@@ -81,7 +82,7 @@ def dispatch_one(d, cfg, log, idx):
 def run(scn, n):
     traces = []
     if 'hist' in scn:
-        cfg = make_cfg('async' if n % 2 else 'sync')
+        cfg = make_cfg('async' if zlib.crc32(json.dumps(scn, sort_keys=True).encode()) % 2 else 'sync')    # by content, not by position
         log = Log()
         d = dd.build(cfg, log)
         for idx in scn['hist']:
